@@ -356,6 +356,13 @@ func init() {
 	opKinds["join"] = func(e *env, op *Op, out *Outcome) {
 		var parts []redact.RedactableString
 		for i := range op.A {
+			if op.A[i].K == "shared" {
+				// a slice several tasks join at the same time
+				if rss, ok := e.build(&op.A[i]).([]redact.RedactableString); ok {
+					parts = rss
+					break
+				}
+			}
 			parts = append(parts, redact.RedactableString(op.A[i].S))
 		}
 		out.Out = string(redact.Join(redact.RedactableString(op.F), parts))
